@@ -20,6 +20,10 @@ func init() {
 func genC43(r *Rand, n int, tier string, emit func(string)) {
 	for i := 0; i < n; i++ {
 		switch r.Intn(8) {
+		case 3:
+			// the block accepted after other submitters gave up waiting for the turn is held
+			// in ApplyFunc while WaitForDrain polls
+			emit(pipeTurnScenario(r, true, " settle pc drain:2 pc"))
 		case 0:
 			emit(genC43ResultsUnread(r))
 		case 1:
